@@ -70,6 +70,7 @@ def machinery_hash():
 
 def strip_comments(text):
     text = re.sub(r"/-.*?-/", "", text, flags=re.S)
+    text = re.sub(r'"(\\.|[^"\\])*"', '""', text)      # string literals (rendered Rust text mentions `unsafe`)
     return re.sub(r"--.*", "", text)
 
 
